@@ -17,7 +17,7 @@
      sp_decz Z | sp_mac HEX | sp_ip HEX (netip.Addr.String) | sp_netip HEX (net.IP.String) | sp_bool T|F
    Columns: model observation, reference text of the line while every op fits ("-" otherwise),
    key of the recorded defect class of the first call that deviates from the property ("-" if none). *)
-From PV Require Import Base.Text Model.Fastlog Model.FastlogOps Model.FastlogViews Spec.TextSpec.
+From PV Require Import Base.Text Model.Fastlog Model.FastlogOps Model.FastlogViews Model.FastlogPool Spec.TextSpec.
 Open Scope string_scope.
 Open Scope N_scope.
 
@@ -275,6 +275,65 @@ Definition entry_of (args : list string) : option view :=
 Definition fill_line (idx : nat) : acc := mkAcc (Ok (mkLine (repeat 46 BUFSZ) idx)) (Some (repeat 46 idx)) DNone.
 Definition run_view (v : view) : string := finish false (fold_left step (flatten (ops_of v)) (fill_line 7)).
 
+(* pool histories: tokens  mK:MODULE:MSG   aK=optoken   sK=viewkind:HEX (line K .Stringer(view): view.String() builds
+   its own line while K is open)   wK:ok|fail   tK       K = one digit *)
+Definition digit_of (c : ascii) : option nat :=
+  let n := N_of_ascii c in if (48 <=? n) && (n <=? 57) then Some (N.to_nat (n - 48)) else None.
+
+Definition view_string_text (k : vkind) (p : bytes) : option bytes :=
+  if negb (view_valid k p) then None else
+  match (l0 <- msg_line (repeat 0 BUFSZ) (s2b "packet") [] ;; l1 <- run_ops l0 (flatten (view_ops k p)) ;; to_string l1)%res with
+  | Ok t => Some t
+  | _ => None
+  end.
+
+Definition parse_hops (tok : string) : option (list hop) :=
+  match tok with
+  | String c (String d rest) =>
+      match digit_of d with
+      | Some k =>
+          if Ascii.eqb c "m" then
+            match Text.split ":"%char rest with
+            | [_; m; sg] => opt_map2 (fun a b => [HMsg k a b]) (bytes_of_tok m) (bytes_of_tok sg)
+            | _ => None
+            end
+          else if Ascii.eqb c "a" then
+            match rest with
+            | String "=" o => option_map (map (HApp k)) (parse_tok o)
+            | _ => None
+            end
+          else if Ascii.eqb c "s" then
+            match rest with
+            | String "=" o =>
+                match Text.split ":"%char o with
+                | [vk; h] => match kind_of_tok vk, bytes_of_tok h with
+                             | Some vk', Some p => option_map (fun t => [HApp k (OStringer (Some t))]) (view_string_text vk' p)
+                             | _, _ => None
+                             end
+                | _ => None
+                end
+            | _ => None
+            end
+          else if Ascii.eqb c "w" then
+            if String.eqb rest ":ok" then Some [HWrite k false] else if String.eqb rest ":fail" then Some [HWrite k true] else None
+          else if Ascii.eqb c "t" then (if String.eqb rest "" then Some [HToString k] else None)
+          else None
+      | None => None
+      end
+  | _ => None
+  end.
+
+Definition run_pool (toks : list string) : string :=
+  match all_some (map parse_hops toks) with
+  | Some hss =>
+      let hs := concat hss in
+      if negb (hist_ok pinit hs) then BADARGS
+      else let s := prun hs in
+           if existsb (fun r => is_panic r) (outs s) then out3 "panic" "-" "-"
+           else out3 (Text.join "|" (map (show_res show_text) (outs s))) "-" "-"
+  | None => BADARGS
+  end.
+
 Definition dispatch (kind : string) (args : list string) : string :=
   (* vw KIND HEX: FastLog of a byte view on a line with index 7; "invalid" when IsValid reports an error
      vs KIND HEX: String() = Logger.Msg("").Struct(p).ToString() with the package logger "packet"
@@ -293,6 +352,7 @@ Definition dispatch (kind : string) (args : list string) : string :=
         end
     | _ => BADARGS
     end
+  else if String.eqb kind "pool" then run_pool args
   else if String.eqb kind "census" then
     (* the model's lists of what it mirrors, compared with reflection / go/ast of the source *)
     match args with
@@ -301,6 +361,10 @@ Definition dispatch (kind : string) (args : list string) : string :=
         if String.eqb k "line" then names line_methods
         else if String.eqb k "logger" then names logger_methods
         else if String.eqb k "fastlog" then names fastlog_impls
+        else if String.eqb k "pool" then
+          (* Get/Put sites of the lines pool per function, nested finishing calls included *)
+          out3 ("Msg:get=" ++ dec_of_nat MSG_GETS ++ ",put=0;ToString:get=0,put=" ++ dec_of_nat TOSTRING_PUTS
+                ++ ";Write:get=0,put=" ++ dec_of_nat WRITE_PUTS) "-" "-"
         else if String.eqb k "consts" then
           out3 ("bufSize=" ++ dec_of_nat BUFSZ ++ ";hexAscii=" ++ string_of_bytes hex_ascii_tbl
                 ++ ";byteAscii=" ++ Text.join "." (map string_of_bytes byte_ascii_tbl)) "-" "-"
